@@ -92,6 +92,10 @@ def run(tier, seed):
         hi = IC.parse_ser(c['impl'])
         hm = IC.parse_ser(mans)
         names = [IC.call_name(k) for k in c['calls']]
+        # the round-trip oracle needs the implementation only: queue it whatever the model says
+        if hi is not None and hi['ok'] and c['kind'] == 'phase':
+            rt_lines.append('RT ' + line[len('TRACE '):])
+            rt_meta.append(c)
         if hi is None or hm is None or hi['head'] != hm['head']:
             mismatches.append(('ser', line[:600], f'impl={c["impl"][:300]} model={mans[:300]}'))
             R.case(line, True, 'ser-MISMATCH')
@@ -123,8 +127,6 @@ def run(tier, seed):
             des_lines_impl.append(req)
             des_lines_model.append(req)
             des_meta.append(('roundtrip', c, hi))
-            rt_lines.append('RT ' + line[len('TRACE '):])
-            rt_meta.append(c)
             # malformed streams
             b = b'' if hexb == '-' else bytes.fromhex(hexb)
             for _ in range(2):
@@ -260,7 +262,19 @@ def replay(path):
         return 0
     ok, log, exe = IC.build_model()
     print('request :', req)
-    print('impl    :', IC.run_impl([req], chunks=1)[0][:1500])
-    if not req.startswith('RT') and exe:
+    ans = IC.run_impl([req], chunks=1)[0]
+    print('impl    :', ans[:1500])
+    if exe and req.startswith(('DES', 'DES3')):
         print('model   :', IC.run_model(exe, [req])[0][:1500])
+    elif exe and req.startswith('RT'):
+        # the model's view of the same history: serialise (expanded calls), then deserialise
+        f = req.split()
+        tr = IC.run_impl([' '.join(['TRACE'] + f[1:])], chunks=1)[0]
+        body, x, _ = IC.split_impl(tr)
+        hi = IC.parse_ser(body)
+        if x is not None and hi:
+            print('model ser:', IC.run_model(exe, [f'SER {f[1]} {f[2]} {x}'])[0][:800])
+            num = IC.numbering(hi['tbl'])
+            rcl = IC.claims_txt([IC.rename(G.expand(G.dec(c)), num) for c in ([] if f[2] == '-' else f[2].split(';'))])
+            print('model des:', IC.run_model(exe, [f'DES fixed {f[1]} {rcl} {hi[f[1]]}'])[0][:800])
     return 0
